@@ -346,6 +346,46 @@ def x_holder(ctx, case):
     return seen > 0
 
 
+def x_tbt_flags(ctx, case):
+    """TestByTestResult is a testtools result like the others: next to the callback it answers wasSuccessful() and,
+    with failfast, shouldStop - an unexpected success counts as a problem here as everywhere ("a failing outcome never
+    becomes a passing one"), and a 2.6-style result behind the adapter is told of a failure, by object and by holder."""
+    import unittest
+    import testtools
+    calls = []
+    tbt = testtools.TestByTestResult(lambda **kw: calls.append(kw["status"]))
+    tbt.failfast = case["failfast"]
+    tbt.startTestRun()
+    bad_seen = False
+    for k, outcome in enumerate(case["outcomes"]):
+        t = testtools.PlaceHolder("t%d" % k)
+        tbt.startTest(t)
+        if outcome in ("addSuccess", "addUnexpectedSuccess"):
+            getattr(tbt, outcome)(t)
+        elif outcome == "addSkip":
+            tbt.addSkip(t, "why")
+        else:
+            getattr(tbt, outcome)(t, H.make_exc_info("x"))
+        tbt.stopTest(t)
+        bad_seen = bad_seen or outcome in ("addError", "addFailure", "addUnexpectedSuccess")
+        ctx.check(tbt.wasSuccessful() == (not bad_seen) and (not case["failfast"] or bool(tbt.shouldStop) == bad_seen),
+                  "e2o.failing-never-becomes-passing",
+                  lambda: {"TestByTestResult after": case["outcomes"][:k + 1], "wasSuccessful": tbt.wasSuccessful(),
+                           "shouldStop": tbt.shouldStop, "failfast": case["failfast"], "callbacks": calls})
+    # the stock holders reported into a plain unittest.TestResult (which reads test.failureException to trim tracebacks)
+    plain = unittest.TestResult()
+    holder = testtools.ErrorHolder("holder.id", error=H.make_exc_info("<<HX>>"))
+    try:
+        holder.run(plain)
+        raised = None
+    except Exception as e:  # noqa
+        raised = e
+    ctx.check(raised is None and len(plain.errors) == 1 and "<<HX>>" in plain.errors[0][1] and plain.testsRun == 1,
+              "leaf.payload-carries-the-information",
+              lambda: {"an ErrorHolder run into unittest.TestResult": [e[1][-200:] for e in plain.errors], "raised": repr(raised)})
+    return True
+
+
 def x_tbt_reentrant(ctx, case):
     """A TestByTestResult whose on_test callback reacts to a failed test by running a retry of it into the SAME
     result at once (a retry driver): the retry is a test of its own - its callback carries its own tags (the
@@ -419,7 +459,7 @@ def x_tbt_nostart(ctx, case):
     return True
 
 
-SUBCHECKS = {"case": x_case, "holder": x_holder, "tbt_reentrant": x_tbt_reentrant, "tbt_nostart": x_tbt_nostart}
+SUBCHECKS = {"case": x_case, "holder": x_holder, "tbt_reentrant": x_tbt_reentrant, "tbt_flags": x_tbt_flags, "tbt_nostart": x_tbt_nostart}
 
 
 def single_test_histories():
@@ -503,6 +543,11 @@ def run(ctx):
                           [["addFailure", []], ["addFailure", ["z"]]]):
                 if ctx.mine():
                     ctx.execute("tbt_reentrant", {"run_tags": run_tags, "retry_on": retry_on, "tests": tests})
+    for failfast in (False, True):
+        for outs in (["addSuccess", "addUnexpectedSuccess", "addSuccess"], ["addSkip", "addExpectedFailure", "addSuccess"],
+                     ["addUnexpectedSuccess"], ["addSuccess", "addFailure"], ["addExpectedFailure", "addError", "addSkip"]):
+            if ctx.mine():
+                ctx.execute("tbt_flags", {"failfast": failfast, "outcomes": outs})
     # one lazy Content object (a log buffer) attached to every one of 2-3 tests, its source moving on in between
     n = 0
     OUTS = ["addFailure", "addError", "addSkip", "addExpectedFailure", "addSuccess", "addUnexpectedSuccess"]
